@@ -16,9 +16,11 @@ import (
 	"verifsim/harness"
 
 	"github.com/open2b/scriggo"
+	"github.com/open2b/scriggo/native"
 )
 
 func TestC13(t *testing.T) {
+	loadCorpus()
 	harness.Main(t, harness.Check{Prop: "C13", Exec: exec, ShrinkBudget: 250})
 }
 
@@ -113,11 +115,20 @@ func render(t *scriggo.Template, w io.Writer, vars map[string]any) outcome {
 
 func exec(r *harness.Run) *harness.Violation {
 	s := r.S
-	set := tmpl.Gen(s, tmpl.Options{Feature: r.Feature})
+	var set *tmpl.Set
+	var pkgs native.Packages
+	if r.Feature("corpus", 1, 6) {
+		set = corpusAsSet(corpus[s.N(len(corpus))])
+		pkgs = corpusPackages
+		r.Count("artefact.corpus_template", 1)
+	} else {
+		set = tmpl.Gen(s, tmpl.Options{Feature: r.Feature})
+		r.Count("artefact.generated_set", 1)
+	}
 	str := s.Bool()
 	pieces := s.Range(1, 3)
 	r.Artefact = map[string]any{"files": set.Files, "main": set.Main, "vars": fmt.Sprintf("%v", set.Vars), "string_writer": str, "recovers": set.Recovers}
-	t, err := scriggo.BuildTemplate(scriggo.Files(set.FilesBytes()), set.Main, &scriggo.BuildOptions{Globals: set.Globals, MarkdownConverter: simConv(pieces)})
+	t, err := scriggo.BuildTemplate(scriggo.Files(set.FilesBytes()), set.Main, &scriggo.BuildOptions{Globals: set.Globals, Packages: pkgs, MarkdownConverter: simConv(pieces)})
 	if err != nil {
 		r.Count("skipped.build_error", 1)
 		r.Logf("build error: %v", err)
